@@ -33,7 +33,7 @@ def _build_dump(workdir):
 RATIOS = [(1, 2), (2, 1), (1, 3), (3, 1), (2, 3), (3, 2), (1, 4), (4, 1), (3, 4), (4, 3), (1, 5), (5, 1), (1, 8), (8, 1), (1, 16), (16, 1), (1, 31), (1, 60), (1, 64), (1, 125), (100, 1),
           (44100, 48000), (48000, 44100), (44100, 96000), (96000, 44100), (44100, 192000), (192000, 44100), (48000, 88200), (88200, 48000), (32000, 44100), (96000, 50000),
           (40000, 48000), (44100, 65537), (65537, 44100), (44100, 48001), (48000, 23999), (96000, 55001), (44100, 22051), (8000, 44101), (16000, 44101), (1, 1),
-          (1000, 999), (999, 1000), (10000, 1), (1, 1000), (7, 5), (5, 7), (11, 1), (1, 11)]
+          (1000, 999), (999, 1000), (10000, 1), (1, 1000), (7, 5), (5, 7), (11, 1), (1, 11), (512, 1), (1024, 1), (2048, 1), (4096, 1), (100000, 1), (1, 4096)]
 
 
 def cfg_lines(tier):
@@ -91,7 +91,7 @@ def check_plan(d, bad):
         req(s['item'] == (8 if d['engine'] in ('cr64', 'cr64s') else 4), 'FIFO item size does not match the engine sample type')
         if k == 'half':
             req(s['pre'] == 2 * s['n'] and s['pre_post'] == 4 * s['n'] and s['preload'] == s['pre'], 'ENV(half-band): pre == 2n, pre_post == 4n, preload == pre')
-            req(s['input_size'] > 0, 'progress')
+            req(s['input_size'] > s['pre_post'], 'ENV(half-band): progress (input_size > pre_post) (C08)')
         elif k == 'poly':
             step_int = s['step'] >> 32
             req(s['pre'] == 0 and s['pre_post'] >= s['n'] - 1, 'ENV(poly): retained context pre_post >= taps read per output - 1 (n = %d, pre_post = %d) (C07)' % (s['n'], s['pre_post']))
